@@ -26,7 +26,7 @@ struct Ledger {
     nextId = 1;
   }
 };
-extern Ledger g_ledger;
+extern thread_local Ledger g_ledger;  // per thread: a task's blocks are allocated and released by that task
 
 struct FaultPlan {
   // positions count *failable* calls (allocate, growing reallocate), 1-based
